@@ -323,6 +323,41 @@ Proof.
   replace (p <? 0) with true by lia. reflexivity.
 Qed.
 
+(* index by object *)
+Lemma tlt_eqb_eq x y : tlt_eqb x y = true -> x = y.
+Proof.
+  unfold tlt_eqb. intros H. apply andb_true_iff in H. destruct H as [H1 H2].
+  destruct x as [a b], y as [c d]. cbn in *. f_equal; lia.
+Qed.
+
+Lemma index_from_spec x : forall l k i,
+  index_from tlt_eqb x l k = Some i -> k <= i /\ nth_error l (Z.to_nat (i - k)) = Some x.
+Proof.
+  induction l as [|y l IH]; intros k i H; [discriminate|]. cbn [index_from] in H.
+  destruct (tlt_eqb x y) eqn:E.
+  - injection H as <-. split; [lia|]. replace (k - k) with 0 by lia. cbn. f_equal. symmetry. apply tlt_eqb_eq. exact E.
+  - destruct (IH _ _ H) as [Hk Hn]. split; [lia|].
+    replace (Z.to_nat (i - k)) with (S (Z.to_nat (i - (k + 1)))) by lia. exact Hn.
+Qed.
+
+Lemma index_from_none x : forall l k, index_from tlt_eqb x l k = None -> ~ In x l.
+Proof.
+  induction l as [|y l IH]; intros k H Hin; [contradiction|]. cbn [index_from] in H.
+  destruct (tlt_eqb x y) eqn:E; [discriminate|].
+  destruct Hin as [->|Hin]; [rewrite tlt_eqb_refl in E; discriminate|exact (IH _ H Hin)].
+Qed.
+
+Lemma index_of_entry_lemma x w :
+  run_op shuf fuel (IndexOf x) w = (Ok (ROptZ (py_index x (World.tl w))), w)
+  /\ (forall i, py_index x (World.tl w) = Some i -> nth_z (World.tl w) i = Some x)
+  /\ (py_index x (World.tl w) = None -> ~ In x (World.tl w)).
+Proof.
+  split; [reflexivity|]. split.
+  - intros i H. destruct (index_from_spec x _ _ _ H) as [Hk Hn]. unfold nth_z.
+    replace (i <? 0) with false by lia. replace (i - 0) with i in Hn by lia. exact Hn.
+  - apply index_from_none.
+Qed.
+
 (* the read-only queries report the same list *)
 Lemma queries_report_list_lemma w :
   (forall c, run_op shuf fuel (Filter c) w = (Ok (RTlts (filter (matches c) (World.tl w))), w))
